@@ -50,6 +50,7 @@ structure St where
   disp : Option (List (List Nat)) := none
   expected : Option (List Call) := none
   feedIdx : Nat := 0
+  feedBytes : Bool := false
   cnt : Counters := {}
   dead : Bool := false
 
@@ -170,10 +171,10 @@ def handleLine (st : St) (line : String) : IO St := do
       | some (e :: rest) =>
         if e == c then st := { st with expected := some rest }
         else
-          st ← emit st "PARSE" c.name s!"feed#{st.feedIdx}: implementation called {reprStr c}, model expected {reprStr e}"
+          st ← emit st "PARSE" c.name s!"feed#{st.feedIdx}{if st.feedBytes then "[bytes]" else ""}: implementation called {reprStr c}, model expected {reprStr e}"
           st := { st with expected := none }
       | some [] =>
-        st ← emit st "PARSE" c.name s!"feed#{st.feedIdx}: implementation called {reprStr c}, model expected no further call"
+        st ← emit st "PARSE" c.name s!"feed#{st.feedIdx}{if st.feedBytes then "[bytes]" else ""}: implementation called {reprStr c}, model expected no further call"
         st := { st with expected := none }
       | none => pure ()
       match st.last with
@@ -188,10 +189,10 @@ def handleLine (st : St) (line : String) : IO St := do
       | some (e :: rest) =>
         if e == c then return { st with expected := some rest }
         else
-          st ← emit st "PARSE" c.name s!"feed#{st.feedIdx}: implementation called {reprStr c}, model expected {reprStr e}"
+          st ← emit st "PARSE" c.name s!"feed#{st.feedIdx}{if st.feedBytes then "[bytes]" else ""}: implementation called {reprStr c}, model expected {reprStr e}"
           return { st with expected := none }
       | some [] =>
-        st ← emit st "PARSE" c.name s!"feed#{st.feedIdx}: implementation called {reprStr c}, model expected no further call"
+        st ← emit st "PARSE" c.name s!"feed#{st.feedIdx}{if st.feedBytes then "[bytes]" else ""}: implementation called {reprStr c}, model expected no further call"
         return { st with expected := none }
       | none => return st
   | "DISP" =>
@@ -216,12 +217,12 @@ def handleLine (st : St) (line : String) : IO St := do
           let r := feed st.bp.parser data
           ({ st.bp with parser := r.1 }, r.2)
         else feedBytes st.bp data
-      return { st with bp := r.1, expected := some r.2, feedIdx := st.feedIdx + 1,
+      return { st with bp := r.1, expected := some r.2, feedIdx := st.feedIdx + 1, feedBytes := head == "FB",
                        cnt := { st.cnt with feeds := st.cnt.feeds + 1 } }
   | "EF" =>
     match st.expected with
     | some (e :: _) =>
-      st ← emit st "PARSE" e.name s!"feed#{st.feedIdx}: model expected {reprStr e}, implementation made no further call"
+      st ← emit st "PARSE" e.name s!"feed#{st.feedIdx}{if st.feedBytes then "[bytes]" else ""}: model expected {reprStr e}, implementation made no further call"
       return { st with expected := none }
     | _ => return { st with expected := none }
   | "PF" =>
